@@ -564,7 +564,7 @@ func (s *h10Gen) inlineSweep() {
 	for k := 0; k < m; k++ {
 		d := hx.Hex(r.Bytes(8))
 		sid := uint32(1 + 2*r.Intn(2000))
-		set := fmt.Sprintf("set:%d=%d", []int{1, 3, 4, 5, 6}[r.Intn(5)], []int{4096, 100, 65535, 16384, 1 << 20}[r.Intn(5)])
+		set := []string{"set:1=4096", "set:1=0", "set:3=100", "set:4=65535", "set:4=2147483647", "set:5=16384", "set:5=16777215", "set:6=1048576"}[r.Intn(8)] // valid settings only
 		s.inlineCase("server", []string{"ping:" + d})
 		s.inlineCase("server", []string{set})
 		s.inlineCase("server", []string{"shutdown"})
